@@ -26,6 +26,10 @@ class Inconclusive(Exception):
     pass
 
 
+class OverBudget(Inconclusive):
+    pass
+
+
 # ------------------------------------------------------------------------------------------------
 # values
 
@@ -337,6 +341,7 @@ class Executor:
         self.fn_cover = {}           # fn name -> set of executed bbs
         self.call_cache = {}
         self.cache_hits = 0
+        self.deadline = None
 
     # ---------------------------------------------------------------- solver
     def lit(self, c):
@@ -723,6 +728,10 @@ class Executor:
                     return S(w, z3.Extract(w - 1, 0, a.v))
                 return S(w, z3.ZeroExt(w - a.w, a.v))   # all sources in scope are unsigned
             if w < a.w:
+                # narrowing: if the value provably fits on this path the cast is the identity
+                fits, _ = self.sat_under(st, a.v >= (1 << w))
+                if not fits:
+                    return S(w, a.v)
                 return S(w, a.v % (1 << w))
             return S(w, a.v)
         if kind in ('PtrToPtr', 'FnPtrToPtr'):
@@ -770,12 +779,17 @@ class Executor:
                     return A([S(w, x - y), S(1, z3.ULT(x, y))])
                 return A([S(w, x * y), S(1, z3.Not(z3.BVMulNoOverflow(x, y, False)))])
             m = 1 << w
-            if name[0] == 'A':
-                r = x + y
-                return A([S(w, z3.If(r >= m, r - m, r)), S(1, r >= m)])
-            if name[0] == 'S':
-                r = x - y
-                return A([S(w, z3.If(r < 0, r + m, r)), S(1, r < 0)])
+            if name[0] in 'AS':
+                r = (x + y) if name[0] == 'A' else (x - y)
+                ovf = (r >= m) if name[0] == 'A' else (r < 0)
+                # decide right here whether the operation can overflow on this path (the same query
+                # the following `assert(!overflow)` would pose); if it cannot, the result is the
+                # plain sum and later queries stay free of wrap-around conditionals
+                feasible, _ = self.sat_under(st, ovf)
+                if not feasible:
+                    return A([S(w, r), S(1, 0)])
+                wrapped = z3.If(ovf, r - m, r) if name[0] == 'A' else z3.If(ovf, r + m, r)
+                return A([S(w, wrapped), S(1, ovf)])
             if not (a.conc() or b.conc()):
                 raise Inconclusive('symbolic * symbolic')
             r = x * y
@@ -877,6 +891,8 @@ class Executor:
             st.steps += 1
             if st.steps > self.max_steps:
                 raise Inconclusive('step bound exceeded')
+            if self.deadline is not None and (st.steps & 255) == 0 and time.time() > self.deadline:
+                raise OverBudget('time budget for this definition exhausted')
             fr = st.frames[st.stack[-1]]
             block = fr.fn.blocks[fr.bb]
             if fr.si == 0:
